@@ -264,6 +264,17 @@ func checkWellFormed(r *core.Result, m *mode, hdr, body, trl fixwire.Fields, xml
 	if n := len(msg.Header.Tags()) + len(msg.Body.Tags()) + len(msg.Trailer.Tags()); n != len(hdr)+len(body)+len(trl)+4 {
 		r.Violate("C11/field-count/"+m.name+xs, fmt.Sprintf("sections hold %d tags, wire has %d fields; wire %q", n, len(hdr)+len(body)+len(trl)+4, tc.Wire), tc)
 	}
+	// what the getters hand out is the caller's: growing a retrieved value must not write into the message
+	if len(body) > 1 {
+		if v, gerr := msg.Body.GetBytes(quickfix.Tag(body[0].Tag)); gerr == nil {
+			_ = append(v, "\x01GROWN-BY-THE-CALLER="...)
+			if !bytes.Equal(msg.Bytes(), raw) {
+				r.Violate("C11/bytes-changed/"+m.name+"/after-append-to-retrieved-value", fmt.Sprintf("appending to the value returned by GetBytes(%d) changed the message's raw bytes; wire %q", body[0].Tag, tc.Wire), tc)
+				return
+			}
+			check("body", &msg.Body.FieldMap, body)
+		}
+	}
 	// order preserved for validation: a well-ordered message must not be reported out of order
 	if !xml && len(m.extraHdr) == 0 {
 		v := quickfix.NewValidator(quickfix.ValidatorSettings{CheckFieldsOutOfOrder: true}, nil, nil)
